@@ -154,6 +154,7 @@ def format_radix_obligations(S, radices, max_digits=64):
         ex = Executor(S.prog, S.types, oracles=FR_ORACLES, loop_bound=max_digits + 2)
         ex.opaque = [re.compile(x) for x in OPAQUE]
         ex.feas_timeout_ms = 3000
+        ex.solver_timeout_ms = 180000      # udiv/urem chains by a non-power-of-two radix need 30 s per query
         ex.div_lemma = True
         x = z3.BitVec("x", 64)
         paths = ex.run(f, [Prim("i64", x), Prim("u32", z3.BitVecVal(radix, 32))])
@@ -555,16 +556,20 @@ def find_obligations(S):
     return obls, fns
 
 
-def obligations(S=None, radices=(2, 10, 16, 36), max_digits=2):
+def obligations(S=None, radices=(2, 10, 16, 36), max_digits=2, digits_for=None):
     S = S or session()
     obls, fns = [], []
     for fn in (abs_obligations, mod_obligations):
         o, f = fn(S)
         obls += o
         fns += f
-    o, f = format_radix_obligations(S, radices, max_digits)
-    obls += o
-    fns += f
+    by_digits = {}
+    for r in radices:
+        by_digits.setdefault((digits_for or {}).get(r, max_digits), []).append(r)
+    for d, rs in sorted(by_digits.items()):
+        o, f = format_radix_obligations(S, tuple(rs), d)
+        obls += o
+        fns += f
     o, f = wrapper_obligations(S)
     obls += o
     fns += f
